@@ -287,10 +287,44 @@ def clause4(P, res):
         res.violated(rid, "wake-one-instances", f"expected >= 10 wake-one instances, found {n}")
 
 
+def clause5(P, res):
+    from rules import cachelib
+    rid = "C06-5"
+    res.rule(rid, "a wake-metered registration is withdrawn when the future completes: in every poll that can enqueue the task in the mpsc-bounded async-send "
+                  "queue (one entry woken per published progress), each Poll::Ready is reachable only through unregister_async_send, through the edge on which the "
+                  "future's registration id was found absent, or through the edge on which its payload was already gone (it completed in an earlier poll) — a "
+                  "completed future kept alive (pinned, select!) otherwise leaves a dead entry at the head of the queue that swallows the wake of a real waiter")
+    n = 0
+    for b in P.bodies.values():
+        if b.name not in ("poll", "poll_next") or not b.id.startswith("fibre::"):
+            continue
+        regs = [e for e in b.calls() if (e.method or "") == "register_async_send"]
+        if not regs:
+            continue
+        unregs = [e for e in b.calls() if (e.method or "") == "unregister_async_send"]
+        excused = []
+        for e in b.calls():
+            if e.method == "take" and e.args and re.search(r"\.(my_id|item)$", b.path_of_operand(e.args[0])):
+                excused += cachelib.result_switch_edges(b, e, "None")
+        reach = b.pos_reach_set((0, 0), removed=frozenset(u.pos for u in unregs), removed_edges=frozenset(excused), strict=False)
+        readys = [e for e in b.events if e.kind == "assign" and e.data["r"]["k"] == "agg" and e.data["r"].get("variant") == "Ready"]
+        for i, r in enumerate(readys):
+            n += 1
+            key = f"{b.id}:Ready#{i}"
+            if r.pos in reach:
+                res.violated(rid, key, f"Poll::Ready at {r.loc} can be returned while the future's entry is still in the async-send queue (no unregister_async_send on the "
+                             "way): the next progress publication wakes this finished task instead of a sender that is really waiting", where=r.loc)
+            else:
+                res.holds(rid, key, "completion passes unregister_async_send (or nothing was registered)", where=r.loc)
+    if n < 6:
+        res.violated(rid, "ready-sites", f"expected >= 6 Ready sites in polls that register in the async-send queue, found {n}")
+
+
 def run(P, ctx):
     res = Result("C06")
     res.extra["explanation"] = "Waker registration, unregistration-on-drop and wake-forwarding shapes of every hand-written future/stream of fibre."
     clause1(P, res)
     clause2(P, res)
     clause4(P, res)
+    clause5(P, res)
     return res
